@@ -219,8 +219,8 @@ func runC05(c *core.Ctx) {
 							if int(i) >= len(frontier) {
 								break
 							}
-							if i%16 == 0 && c.Expired() {
-								capped = true
+							if i%16 == 0 && (c.Expired() || atomic.LoadInt64(&states) > 4_000_000) {
+								capped = true // time budget, or the state table has reached its memory budget
 								break
 							}
 							for e := uint8(0); e <= evRestartA; e++ {
